@@ -126,7 +126,7 @@ func classifyPackage(d *PkgDesc, c PkgCtx, cfgBad string, pullErr bool, otherSam
 
 // C16Monitor: only valid, admissible packages roll out; unchanged packages are left alone.
 type C16Monitor struct {
-	Env         *int // index into PkgEnvs (shared with the runner)
+	Env         *int              // index into PkgEnvs (shared with the runner)
 	deployedFor map[string]string // package uid -> spec JSON for which unpackedHash was persisted
 	Classes     map[string]int
 }
